@@ -36,13 +36,13 @@ CHECKS = {
          "Function tier decides the serialiser; the per-transport choice (UDP vs TCP) is glue inside the service loops and is decided by the wire tier (same command; needs the private network namespace).", "3/C04"),
  "C05": ("CODEC+FUZZ", "complete enumeration of a structure-aware boundary/truncation family + generated mutations + corpus through every decoder and the handler steps that follow it; crash/overflow/hang oracle with write-ahead replay", "exploration",
          "No input of the enumerated single-position family over the seed packets, of the nested-length families, of the committed corpus or of the generated multi-edit mutations made any decoder or subsequent handler step panic, overflow or exceed 30 s CPU (build has overflow checks and debug assertions on).",
-         "Handler steps replicated with public API calls in the order the service uses them; private glue (to_array, service loops) is reached only by the wire tier. Frames below 14 octets are not deliverable to LLDP.", "3/C05"),
+         "Handler steps replicated with public API calls in the order the service uses them; private glue of the DNS service loops is reached by the wire tier of the same command (hostile datagrams, TCP frames and upstream replies to the real erbium-dns, then a liveness probe). Frames below 14 octets are not deliverable to LLDP.", "3/C05"),
  "C06": ("CODEC(hook)", "model-based property testing of the cache through its own entry points under a paused clock against a reference cache model", "exploration",
          "Generated query/advance/sweep sequences with near-miss keys and boundary-placed clocks: a hit only for the identical key within the smallest TTL, TTLs equal original minus whole elapsed seconds, never negative; cached content equals what was stored.",
-         "H3 drives calculate_expiry/insert/get_entry/expire in handle_query order; the class bypass and header-bit extraction of the key live in handle_query/parser and are decided by C14 and the wire tier.", "3/C06"),
+         "H3 drives calculate_expiry/insert/get_entry/expire in handle_query order; the class bypass and header-bit extraction of the key live in handle_query/parser and are decided by the wire tier of the same command (near-miss keys and timed re-queries against the real erbium-dns).", "3/C06"),
  "C16": ("CODEC(hook)", "property testing of the token bucket on a harness clock with black-box inferred constants; window-bound invariant + idle liveness", "exploration",
          "With burst and rate inferred black-box, every window of every generated arrival sequence stays within B + R*span and an idle bucket grants any request up to B.",
-         "Decides the single bucket only; the two-bucket limiter, the reply pricing and the cookie exemption are private glue decided by the wire tier when enabled.", "3/C16"),
+         "The bucket is decided exactly; the two-bucket limiter, reply pricing and cookie exemption are private glue decided by the wire tier of the same command (quiet source, bursts, cookie matrix) without numeric B and R. Key rotation is not covered.", "3/C16"),
  "C17": ("CONF+CODEC", "model-based property testing: generated interface configurations through the real loader and builder, decoded by an RFC 4861/8106/8781/8910 decoder and compared with expected(config)", "exploration",
          "Every generated interface section (tri-state fields, boundary lifetimes in four spellings, prefixes of any length with host bits, RDNSS/DNSSL/PREF64/captive portal, top-level defaults) yields an RA that an independent RFC decoder reads back as exactly the configured values; reserved fields zero; unrepresentable values rejected or clamped, never wrapped.",
          "Trusted: the harness's RFC decoder and expectation model; yaml-rust's emitter (cases whose emitted text does not re-parse to the intended tree are skipped and counted). mtu/lifetime tri-state resolution is decided on the wire tier only.", "3/C17"),
@@ -54,7 +54,7 @@ CHECKS = {
          "Trusted: the harness's model of erbium.conf(5). Unconstrained where the manual is silent (explicit pools naming the server's own or network/broadcast addresses; sibling overlap). Prefix lengths 22..30 in the generator; /8../21 only by the eager-size argument (the expansion code is length-independent).", "3/C02"),
  "C08": ("CONF", "model-based property testing: generated ACL lists through the real loader; reference first-match model vs require_permission (differential incl. refusal kind)", "exploration",
          "For every generated ACL list (or the documented defaults) and client (IPv4, IPv6, mapped, unix; at and around every prefix boundary) the decision for each of the four operations equals the first-match model, including the kind of refusal.",
-         "Function tier decides acl::require_permission and prefix containment. Whether each entry point (DNS before cache/forwarding, each HTTP path) consults the ACL is glue decided by the wire tier when enabled.", "3/C08"),
+         "Function tier decides acl::require_permission and prefix containment. The wire tier of the same command decides the DNS entry point on the real erbium-dns (refused => REFUSED, never forwarded, never served from cache). HTTP endpoints need the full erbium binary (WIRE-NET).", "3/C08"),
  "C11": ("CONF", "model-based property testing: generated policy trees and requests through the real loader and handle_pkt; independent model of the manual's option semantics", "exploration",
          "For every generated policy tree, top-level defaults and request, the reply's options equal the model (sibling order, condition-less policies, outer-then-inner override, null unsets, parameter-list gating, defaults with $self4, MTU/router, netmask/broadcast) as a map code -> bytes.",
          "Trusted: the harness's model of erbium.conf(5) and RFC 2132 encodings for the 20 options generated. Unconstrained: netmask/broadcast with two different matching subnets; empty lists; relayed requests and match-interface are not generated.", "3/C11"),
@@ -106,7 +106,7 @@ def main():
         "engines": [
             {"name": "CODEC", "path": "harness/src/props_codec.rs", "serves_properties": ["C04", "C05", "C06", "C12", "C14", "C16"], "kind_free_text": "independent RFC codecs + proptest strategies for messages, frames, byte mutations; enumerated mutation families"},
             {"name": "CONF", "path": "harness/src/conf.rs", "serves_properties": ["C02", "C08", "C11", "C17", "C19"], "kind_free_text": "YAML documents (reference docs, substitution family, generated ASTs) through the real loader; serve-smoke"},
-            {"name": "WIRE-DNS", "path": "harness/src/wire_dns.rs", "serves_properties": ["C03", "C04", "C07", "C15"], "kind_free_text": "real erbium-dns binary in a private network namespace, scripted upstream servers on 127.0.1.N:53, UDP/TCP clients; cases generated by proptest, confirmed twice, shrunk with <= 40 re-executions"},
+            {"name": "WIRE-DNS", "path": "harness/src/wire_dns.rs", "serves_properties": ["C03", "C04", "C05", "C06", "C07", "C08", "C15", "C16"], "kind_free_text": "real erbium-dns binary in a private network namespace, scripted upstream servers on 127.0.1.N:53, UDP/TCP clients; cases generated by proptest, confirmed twice, shrunk with <= 40 re-executions"},
             {"name": "HIST", "path": "harness/src/hist.rs", "serves_properties": ["C01", "C09", "C10", "C13", "C18", "C20"], "kind_free_text": "model-based DHCP history interpreter over the real handle_pkt + Pool (proptest)"},
         ],
         "checks": checks,
